@@ -42,8 +42,9 @@ type Clause struct {
 }
 
 type LoopSpec struct {
-	Inv []Clause
-	Dec []Clause
+	Inv    []Clause
+	Dec    []Clause
+	Assume []Clause // explicitly listed, unverified assumptions at the loop header
 }
 
 type SiteAssert struct {
@@ -73,6 +74,7 @@ type FuncContract struct {
 	Unroll   map[int]int
 	Uses     []string
 	NoSafety bool
+	CutLoops bool // modular loops: the code after a loop header is verified once, from the invariant alone
 	Stop     string // region contract: paths end before this call site; ensures are checked there
 	Start    string // region contract: verification starts before this call site (callee#k)
 }
@@ -308,6 +310,8 @@ func (cs *Contracts) parseFile(path string) error {
 				return fmt.Errorf("%s: expected `stop before call f#k`", where)
 			}
 			cur.Stop = strings.TrimSpace(r3)
+		case "cutloops":
+			cur.CutLoops = true
 		case "nosafety":
 			cur.NoSafety = true
 		case "noframe":
@@ -344,6 +348,9 @@ func (cs *Contracts) parseFile(path string) error {
 				return err
 			}
 			switch kind {
+			case "assume":
+				ls.Assume = append(ls.Assume, cl)
+				cs.Assumes = append(cs.Assumes, where+": loop "+nstr+" assume "+cl.Text)
 			case "invariant":
 				ls.Inv = append(ls.Inv, cl)
 			case "decreases":
